@@ -159,6 +159,21 @@ Example C06_restart_nonvacuous :
 Proof. exact (conj ex_restart_valid ex_restart_stamps). Qed.
 Print Assumptions C06_restart_nonvacuous.
 
+(* The runs of the four theorems above also contain the counter-like commands (RClient2: INCR /
+   DECR / INCRBY / DECRBY, GETSET, HINCRBY): given the executor's state such a command is the SET
+   (resp. one-field HSET) of its post-value that the glue records, or nothing when it is refused.
+   Non-vacuity: INCRBY 5 and -7 on an absent key leave "-2", GETSET "10" then INCR leave "11",
+   HINCRBY on a non-integer field and an overflowing one are refused. *)
+Example C06_counter_nonvacuous :
+  (valid_rrun ex_K (cluster_init 3) [] ex_counter_evs /\ rrun_no_ovf (cluster_init 3) [] ex_counter_evs) /\
+  (map (fun x : nat * list N * rvalue => (x.1.1, x.1.2, st_time (rv_ts x.2))) (rrun (cluster_init 3) [] ex_counter_evs).2
+   = [(0%nat, [115%N], 1%N); (0%nat, [115%N], 2%N); (1%nat, [104%N], 2%N); (0%nat, [115%N], 4%N); (1%nat, [104%N], 4%N);
+      (0%nat, [99%N], 5%N); (0%nat, [99%N], 6%N); (0%nat, [115%N], 7%N); (0%nat, [115%N], 8%N); (1%nat, [104%N], 5%N)]
+   /\ map (fun n => (n_x n !! [99%N], n_x n !! [115%N])) (rrun (cluster_init 3) [] ex_counter_evs).1
+   = [(Some (XStr [45%N; 50%N]), Some (XStr [49%N; 49%N])); (None, None); (None, None)]).
+Proof. exact (conj ex_counter_valid ex_counter_log). Qed.
+Print Assumptions C06_counter_nonvacuous.
+
 (* Known findings: outside the class the property fails on the faithful model. *)
 Theorem C06_expiry_refuted :
   let '(s1, ds) := run (shard_init 1 false) [EWrite kS [97%N] (Some 5000%N); EWrite kS [98%N] None] in
